@@ -458,6 +458,7 @@ type world struct {
 	ignoreTable string
 	cacheFull   bool // a statement hit ErrLRUCacheFull (only with TolerateCacheFull)
 	scheduled   bool // statements run under the C13 scheduler (a parked flusher may hold the lock)
+	window      *storage.VerifWindow // (C13 seeds) sequential statement-window monitor for INSERT / UPDATE / DELETE
 }
 
 var (
@@ -519,7 +520,16 @@ func newWorld(c *lib.Ctx, opt worldOpt) *world {
 
 func (w *world) exec(q string) error {
 	storage.VerifSetFuel(worldFuel)
+	watched := w.window != nil && (strings.HasPrefix(q, "INSERT") || strings.HasPrefix(q, "UPDATE") || strings.HasPrefix(q, "DELETE"))
+	if watched {
+		w.window.Begin(clip(q, 80))
+	}
 	err := guard(func() error { return w.sess.ExecQuery(q) })
+	if watched {
+		for _, p := range w.window.End() {
+			w.c.Fail("write-inside-statement", "%s", p)
+		}
+	}
 	storage.VerifSetFuel(-1)
 	if !w.opt.RealClock && !w.scheduled && !storage.VerifLockFree(w.sess.RelationService) {
 		// the flusher is idle (manual clock) and the statement has returned: nobody may hold the lock
